@@ -28,6 +28,12 @@ NOISE_FREE_REL = 1e-6
 
 
 PARTIAL = collections.Counter()     # clauses not judged on otherwise judged cases
+MARGIN = {}                         # largest accepted value of each certificate quantity
+
+
+def _margin(key, v):
+    if math.isfinite(v) and v > MARGIN.get(key, 0.0):
+        MARGIN[key] = v
 
 
 def _worker_observe(args):
@@ -133,6 +139,7 @@ def judge_c06(case, o, r):
         mag = [unbits(v) for v in r["mag"]]
         for k in range(m):
             gv, gb = g[k]
+            _margin("poly |normal-eq residual| / magnitude", abs(gv) / (mag[k] + 1e-300))
             if not abs(gv) <= 64 * gb + POLY_REL * mag[k]:
                 fails.append(fail(
                     "c06:poly-normal-eq:" + sfx,
@@ -150,6 +157,8 @@ def judge_c06(case, o, r):
             for i in range(m):
                 for j in range(m):
                     sc = math.sqrt(cov[i][i] * cov[j][j])
+                    _margin("poly |cov - model| / sqrt(CiiCjj) / kappa",
+                            abs(o["cov"][i][j] - cov[i][j]) / sc / kappa)
                     if not abs(o["cov"][i][j] - cov[i][j]) <= tol * sc:
                         fails.append(fail(
                             "c06:poly-cov:" + sfx,
@@ -170,6 +179,8 @@ def judge_c06(case, o, r):
         # |g_k| <= |J_k/s| |r/s| by Cauchy-Schwarz, so this slack is in units of |y/s|
         gslack = XTOL_SLACK * unbits(r["yn"])
         cosp = math.sqrt(max(quad, 0.0))
+        if rn > 1e-4 * unbits(r["yn"]):
+            _margin("non-poly projected gradient / |r/s| (noisy data)", cosp / rn)
         if not cosp <= COS_MAX * rn + gslack + 1e-300:
             fails.append(fail(
                 "c06:stationary:" + sfx,
@@ -201,6 +212,7 @@ def judge_c06(case, o, r):
             for i in range(m):
                 for j in range(m):
                     sc = math.sqrt(cov[i][i] * cov[j][j])
+                    _margin("non-poly |cov - model| / sqrt(CiiCjj)", abs(o["cov"][i][j] - cov[i][j]) / sc)
                     if not abs(o["cov"][i][j] - cov[i][j]) <= (NL_COV_REL + 1e-12 * kappa) * sc:
                         fails.append(fail(
                             "c06:cov:" + sfx,
@@ -265,6 +277,7 @@ def run_c06(ctx, cases, ref=False):
                              clause="every way of passing the data / every x-range"))
     mod = ctx.model(lines, ref=ref) if lines else []
     PARTIAL.clear()
+    MARGIN.clear()
     for (c, o), r in zip(idx, mod):
         fs, sk = judge_c06(c, o, r)
         if sk:
@@ -282,6 +295,9 @@ def run_c06(ctx, cases, ref=False):
                                             "grad": [fb(v)[0] for v in r["grad"]],
                                             "kappa": unbits(r["kappa"])}})
     dist.update(PARTIAL)
+    dist = dict(dist)
+    dist["largest-value-seen (tolerances: poly 64*FB+1e-12, cov 1e-13*kappa, cosine 5e-4, cov 3e-3)"] = \
+        {k: float("%.3g" % v) for k, v in MARGIN.items()}
     return {"evaluations": len(idx) + len(raised), "nontrivial": nontrivial, "failures": failures,
             "samples": samples, "distribution": dict(dist), "skipped": skipped}
 
